@@ -204,11 +204,30 @@ class Contract:
             return {}
         return same_value(ex.L, res, sp)
 
+    returns = None                     # "node": a contract stated by `post` only may be used at call sites through a havoc'd result
+
     def result(self, ex, a):
         sp = self.spec(ex, a)
-        if sp is None:
-            raise OutOfSubset(f"contract of {self.qual} has no defining term for its result")
-        return sp
+        if sp is not None:
+            return sp
+        if self.returns == "node":
+            # havoc + assume post.  Under iteration constants the result is a Skolem function of them and the guarantee is stated
+            # for every iteration at once:  forall bs. pre(args) & not raises(args)  =>  post(args, F(bs))
+            L = ex.L
+            bs = list(ex.binders)
+            nm = L.fresh_name("ret_" + self.qual.split(".")[-1])
+            t = z3.Function(nm, *[b.sort() for b in bs], L.Node)(*bs) if bs else z3.Const(nm, L.Node)
+            res = VNode(t)
+            post = L.And(*self.post(ex, a, res).values())
+            if not bs:
+                ex.assume(post)
+                return res
+            pre = [c for _, c in self.pre(ex, a)]
+            if getattr(self, "raises_exact", True):
+                pre += [L.Not(c) for c in self.raises(ex, a).values()]
+            L.add_axioms({nm}, [L.forall_c(bs, L.Implies(L.And(*pre), post))])
+            return res
+        raise OutOfSubset(f"contract of {self.qual} has no defining term for its result")
 
 
 # ------------------------------------------------------------------------------------------------ comparing a result with its specification
